@@ -3,3 +3,8 @@ claim("C18", "Lean 4 theorems on the Bezier model (ring identities per degree 1.
       "derivative = formal derivative (deg 1-3), box contains the curve for EVERY degree. The real segment(t), derivate(k), split, box are compared for exact Fraction equality with the model on random rational control polygons; "
       "point-on-curve projection and arctan2 winding are numerical and only checked on the corpus.",
       "Newton projection and arctan2 are outside the model.", "DESIGN.md §8 C18")
+claim("C01", "Lean 4: verified slab-decomposition region checker (slabCheck_sound) run on the implementation's results + decide-checked truth tables of the operator methods regenerated from shape.py + induction over expressions",
+      "Proved for all inputs: the translated BaseShape/Empty/Whole operator bodies and DefinedShape short-cut chains have the right truth tables (re-proved against the current source on every run), "
+      "every nested expression denotes its pointwise meaning (induction), and the region checker is sound: an accepted result is right at every point off the edges outside finitely many vertical lines, a rejection yields a witness point. "
+      "Boundary recombination (FollowPath) is not modelled: C01_partial — each executed result on generated general-position polygon expressions is certified for all points; curved/float operands are sampled.",
+      "FollowPath is certified per run, not proved for all inputs; curved results sampled only.", "DESIGN.md §4, §8 C01")
